@@ -97,13 +97,22 @@ def _add_mixed(plan):
         if any(ln["variant"] == v for ln in plan["jobs"]):
             variants.append(v)
     extra = []
+    def runs_in(wl, v, cfg):
+        # a workload belongs to a prelude only if the plan itself runs it in that variant and configuration
+        # (c15.sha1 / c16.sha1 exist for configuration sha1ok only and refuse to run elsewhere)
+        return any(o["wl"] == wl and o["variant"] == v and cfg in o["configs"] and not o.get("thorough_only") and not o.get("tag")
+                   for o in plan["jobs"])
+
     for ln in wls:
-        prelude = [o["wl"] for o in wls if o["wl"] != ln["wl"]]
         for v in variants[:2]:
             same = [o for o in plan["jobs"] if o["wl"] == ln["wl"] and o["variant"] == v and not o.get("thorough_only")]
             if not same:
                 continue
-            j = after(prelude, ln["wl"], [same[0]["configs"][0]], v, shards=same[0]["shards"], deadline=same[0].get("deadline"),
+            cfg = same[0]["configs"][0]
+            prelude = [o["wl"] for o in wls if o["wl"] != ln["wl"] and runs_in(o["wl"], v, cfg)]
+            if not prelude:
+                continue
+            j = after(prelude, ln["wl"], [cfg], v, shards=same[0]["shards"], deadline=same[0].get("deadline"),
                       env=same[0].get("env"))
             j["one_shard"] = True
             extra.append(j)
